@@ -49,6 +49,8 @@ type isoFamily struct {
 	Name  func(i int) string
 	Class func(i int) string
 	Run   func(i int, c *isoCtx)
+	// CrashSig, if set, computes the signature of a process crash in job i.
+	CrashSig func(i int, site string) string
 }
 
 var isoFamilies = map[string]*isoFamily{}
@@ -138,6 +140,14 @@ func runIsolated(t *testing.T, run *rep.Run, family string) (jobs, crashes int) 
 				// the child died: the job in progress is the culprit
 				pb, _ := os.ReadFile(prog)
 				at, perr := strconv.Atoi(strings.TrimSpace(string(pb)))
+				if perr == nil && done[at] && at >= start && at < to {
+					// The process died after job at had reported: a goroutine it
+					// left behind panicked later.  Attribute the crash to it.
+					delete(done, at)
+					mu.Lock()
+					jobs--
+					mu.Unlock()
+				}
 				if perr != nil || done[at] || at < start || at >= to {
 					mu.Lock()
 					fmt.Println("HARNESS-ERROR: isolated child failed outside a job:", runErr, tail(string(stderr), 2000))
@@ -149,7 +159,11 @@ func runIsolated(t *testing.T, run *rep.Run, family string) (jobs, crashes int) 
 				crashes++
 				jobs++
 				run.Eval(f.Name(at))
-				run.Violation(fmt.Sprintf("symptom=process-crash case=%s: %s", f.Class(at), crashSite(string(stderr))),
+				sig := fmt.Sprintf("symptom=process-crash case=%s: %s", f.Class(at), crashSite(string(stderr)))
+				if f.CrashSig != nil {
+					sig = f.CrashSig(at, crashSite(string(stderr)))
+				}
+				run.Violation(sig,
 					map[string]any{"case": f.Name(at), "job_index": at, "crash_output_tail": tail(string(stderr), 4000)})
 				mu.Unlock()
 				start = at + 1
